@@ -96,6 +96,16 @@ def check(run):
     peg_dis = pegcorr.report(run)
     # ---- B: strings through the whole assembler: outcome must be a returned value
     texts = list(SPECIALS)
+    # auto-sized pushes whose value SHRINKS when the push is widened (K - label behind it, K chosen so that the value
+    # crosses a width boundary both ways: needs k+1 bytes when laid out with k, and k when laid out with k+1), and the
+    # cascades / shrinking programs of C07: the layout loop must still end
+    for k in (1, 2, 3, 4, 8, 31):
+        K = 256 ** k + 1 + k
+        for form in (f"%push({K} - lbl)\nlbl:\njumpdest\n", f"%push(({K} - lbl))\nlbl:\njumpdest\n", f"%push({K} - lbl)\n%push({K + 1 + k} - lbl)\nlbl:\njumpdest\n",
+                     f"%macro m()\n%push({K} - lbl)\nlbl:\njumpdest\n%end\n%m()\n", f"%def d(x)\n{K} - $x\n%end\n%push(d(lbl))\nlbl:\njumpdest\n",
+                     f"start:\n%push(lbl + {256 ** k - 2 - k})\n%push({K + 1 + k} - lbl)\nlbl:\njumpdest\n"):
+            texts.append(form)
+    texts += [c["src"] for c in c07.label_dependent_cases(run)]
     seeds = [c["src"] for c in cases]
     for _ in range(3000 if run.tier == "thorough" else 500):
         texts.append(mutate(rng, rng.choice(seeds + SPECIALS)))
